@@ -3,6 +3,8 @@
 
 package plan
 
+import "strings"
+
 // Verification hooks for C06 (unshard pre-check). Add-only; compiled only with
 // the build tag `verif`.
 
@@ -14,4 +16,11 @@ func VerifUnshardPlanInfo(p Plan) (db string, sql string, ok bool) {
 		return "", "", false
 	}
 	return up.db, up.sql, true
+}
+
+// VerifNameSeen tells whether the word scan of MentionsShardTable would see a
+// table of this name in the statement: the router keys a rule by the lower-cased
+// table name, and MentionsShardTable asks isMentioned(key, statementWords(sql)).
+func VerifNameSeen(sql string, name string) bool {
+	return isMentioned(strings.ToLower(name), statementWords(sql))
 }
